@@ -27,6 +27,9 @@ func agentd(args []string) {
 		fmt.Println("@@ conf:", err)
 		os.Exit(3)
 	}
+	if v := os.Getenv("VERIF_PEERS"); v != "" {
+		conf.CPIface.Peers = strings.Split(v, ",")
+	}
 	lvl, _ := zapcore.ParseLevel(conf.LogLevel.String())
 	logger.SetLogLevel(lvl)
 	iface := pfcpiface.NewPFCPIface(conf)
